@@ -5,6 +5,7 @@ CONSTANTS
   Clusters = {}
   HFronts = {}
   TFronts = {}
+  UFronts = {}
   Backends = {}
   Verbs <- VerbsListeners
   MaxReq = 3
